@@ -375,7 +375,7 @@ func runOps(in io.Reader, out io.Writer) {
 	sc.Buffer(make([]byte, 1<<24), 1<<24)
 	w := bufio.NewWriterSize(out, 1<<20)
 	defer w.Flush()
-	limit := 60 * time.Second
+	limit := 25 * time.Second
 	for sc.Scan() {
 		line := sc.Text()
 		ch := make(chan string, 1)
